@@ -296,6 +296,14 @@ class Evaluator:
             if s.exc is not None:
                 e = s.exc.func if isinstance(s.exc, ast.Call) else s.exc
                 name = norm(e)
+                if isinstance(e, ast.Attribute) and isinstance(e.value, ast.Name) and e.value.id in ("self", "cls"):
+                    # raise self._make_error(...): the class the helper builds
+                    try:
+                        cl = self.prog.resolve_exc_expr(fn.module, e)
+                        if len(cl) == 1:
+                            name = self.prog.exc_name(cl[0]).split(".")[-1]
+                    except Exception:
+                        pass
             yield st, ("raise", name)
             return
         if isinstance(s, ast.If):
